@@ -28,14 +28,18 @@ def cookie_for(secret, spi_i, nonce, src):
     return hmac.new(secret, spi_i + nonce + ipaddress.ip_address(src).packed, hashlib.sha256).digest()
 
 
-def request(rng, cookies=(), spi=None, nonce=None, ke=None):
+UNACCEPTABLE = {'unacceptable-proposal:3des-md5': [{'type': 1, 'id': 3, 'keylen': None}, {'type': 3, 'id': 1, 'keylen': None}, {'type': 2, 'id': 1, 'keylen': None}, {'type': 4, 'id': 19, 'keylen': None}],
+                'unacceptable-proposal:other-integ': None, 'unacceptable-proposal:no-dh-transform': None, 'unacceptable-proposal:ke-in-another-group': None}
+
+
+def request(rng, cookies=(), spi=None, nonce=None, ke=None, trs=None, ke_group=19):
     spi = spi or gen.rb(rng, 8)
     nonce = nonce or gen.rb(rng, 32)
     from vf.ref import groups
     ke = ke or groups.dh_public(19, rng.getrandbits(200) | 1)
     pls = [{'type': codec.NOTIFY, 'critical': False, 'proto': 0, 'spi': b'', 'ntype': 16390, 'data': c} for c in cookies]
-    pls += [{'type': codec.SA, 'critical': False, 'proposals': [{'num': 1, 'proto': 1, 'spi': b'', 'transforms': TRS}]},
-            {'type': codec.NONCE, 'critical': False, 'data': nonce}, {'type': codec.KE, 'critical': False, 'group': 19, 'data': ke}]
+    pls += [{'type': codec.SA, 'critical': False, 'proposals': [{'num': 1, 'proto': 1, 'spi': b'', 'transforms': trs or TRS}]},
+            {'type': codec.NONCE, 'critical': False, 'data': nonce}, {'type': codec.KE, 'critical': False, 'group': ke_group, 'data': ke}]
     m = {'spi_i': spi, 'spi_r': b'\0' * 8, 'major': 2, 'minor': 0, 'exch': 34, 'flags': 0x08, 'mid': 0, 'payloads': pls}
     return codec.encode_clear(m), spi, nonce, ke
 
@@ -167,6 +171,19 @@ def responder_case(ck, rng, thr, e, h, variant, i, own=0):
             sim.net.clear()
         half = sum(1 for s in hub.ctl.ike_sas if s.state.value < 10)
     d, *_ = request(rng, cookies, send_spi, send_nonce)
+    if variant.startswith('unacceptable-proposal:'):
+        # a well-formed request WITHOUT a cookie that the daemon would refuse anyway (no common suite, no DH transform, KE in another group): under load
+        # the answer is still nothing but the COOKIE challenge - whoever sent it has not shown that it can be reached at that address
+        what = variant.split(':')[1]
+        trs_ = UNACCEPTABLE[variant] or list(TRS)
+        if what == 'other-integ':
+            trs_ = [dict(t, id=2) if t['type'] == 3 else t for t in TRS]
+        elif what == 'no-dh-transform':
+            trs_ = [t for t in TRS if t['type'] != 4]
+        from vf.ref import groups as _g
+        kg = 14 if what == 'ke-in-another-group' else 19
+        cookies = [] if i % 2 else [gen.rb(rng, 32)]
+        d, *_ = request(rng, cookies, send_spi, send_nonce, ke=_g.dh_public(kg, rng.getrandbits(200) | 1) if kg != 19 else None, trs=trs_, ke_group=kg)
     if variant.startswith('half-open-spi:'):
         # r1 (no cookie) -> challenge -> r2 (cookie) -> full response and a half-open IKE_SA with this initiator SPI
         r1, spi, nonce, ke = request(rng)
@@ -358,7 +375,7 @@ VARIANTS = ['absent', 'correct', 'bitflip-1', 'bitflip-2', 'bitflip-3', 'truncat
             'right-then-wrong', 'wrong-then-right', 'both-wrong', 'previous-incarnation',
             # the SPI under test is the one of a half-open IKE_SA that a valid-cookie retry created a moment ago
             'half-open-spi:late-copy-of-the-cookieless-request', 'half-open-spi:cookie-request-replayed-from-another-address', 'half-open-spi:other-nonce-and-ke-no-cookie',
-            'half-open-spi:other-nonce-with-the-old-cookie']
+            'half-open-spi:other-nonce-with-the-old-cookie'] + sorted(UNACCEPTABLE)
 
 
 def run(ck):
